@@ -32,7 +32,7 @@ const ALPHABET: [Sym; 15] = [
 ];
 
 fn c16(ctx: &Ctx, r: &mut Report) {
-    let max = if ctx.tier == Tier::Thorough { 5 } else { 4 };
+    let max = if ctx.tier == Tier::Thorough { 6 } else { 4 };
     r.domain = "all lists of irrefutable parameter patterns over {a, mut m, ref r, r#type, _, (p,q), N(n), N(k,_), S{s}, &amp, foo (= fn name), foo_, arg1, _arg0, W(foo)} for `fn foo`, with and without a leading receiver; a symbol is not repeated (bindings must be distinct in valid Rust) except `_`".into();
     r.bound = format!("list length 0..{}", max);
     for n in 0..=max {
